@@ -1,6 +1,1064 @@
-pub fn gen(_seed: u64, _thorough: bool) -> Vec<String> {
-    vec![]
+//! C05 — a decoded pixel does not depend on how it was asked for.
+//!
+//! Case kinds (one line each):
+//!   R <fmt> <W> <H> <ox> <oy> <w> <h> <color> <pitch> <bufoff> <api> <seed>
+//!       rectangle decode of a random surface into a padded / offset / prefilled view
+//!   F <fmt> <W> <H> <color> <pitch> <bufoff> <seed>
+//!       full decode into a padded / offset / prefilled view (vs. the tight full decode)
+//!   L <fmt> <W> <H> <color> <seed>
+//!       locality: changing one encoded unit changes only the pixels of that unit
+//!
+//! Result line (compared with the Lean model `Drv/C05.lean`):
+//!   ok wr=<bytes written> rg=<merged ranges> bh=<hash of ranges>  sm=<hash of source map> un=<n> oob=0
+//! `wr/rg/bh` are obtained from the implementation by decoding twice with prefill 0x00 / 0xFF
+//! (a byte that differs was not written).  `sm` is obtained, for the probe formats, by decoding
+//! synthetic surfaces whose pixels carry (bit slices of) their own coordinates and reading the
+//! coordinates back from the output pixels (value -> code tables come from flat surfaces).
+//!
+//! Oracle (independent of the model): rect bytes == crop of the tight full decode; padding,
+//! prefix and suffix bytes keep the prefill; non-native channels == native decode + mapping
+//! (implemented here from the documented rules); probe read-back == identity crop; locality.
+
+use crate::common::{p_u32, p_u64, p_usize, toks, Rng};
+use dds::header::Header;
+use dds::{
+    Channels, ColorFormat, DecodeOptions, Decoder, Format, ImageViewMut, Offset, PixelInfo,
+    Precision, Size,
+};
+use std::cell::RefCell;
+use std::collections::HashMap;
+use std::io::Cursor;
+
+macro_rules! formats {
+    ($($n:ident),* $(,)?) => { pub const FORMATS: &[(&str, Format)] = &[$((stringify!($n), Format::$n)),*]; };
 }
-pub fn run(_line: &str) -> Option<(String, Vec<String>)> {
-    None
+formats!(
+    R8G8B8_UNORM, B8G8R8_UNORM, R8G8B8A8_UNORM, R8G8B8A8_SNORM, B8G8R8A8_UNORM, B8G8R8X8_UNORM,
+    B5G6R5_UNORM, B5G5R5A1_UNORM, B4G4R4A4_UNORM, A4B4G4R4_UNORM, R8_SNORM, R8_UNORM, R8G8_UNORM,
+    R8G8_SNORM, A8_UNORM, R16_UNORM, R16_SNORM, R16G16_UNORM, R16G16_SNORM, R16G16B16A16_UNORM,
+    R16G16B16A16_SNORM, R10G10B10A2_UNORM, R11G11B10_FLOAT, R9G9B9E5_SHAREDEXP, R16_FLOAT,
+    R16G16_FLOAT, R16G16B16A16_FLOAT, R32_FLOAT, R32G32_FLOAT, R32G32B32_FLOAT,
+    R32G32B32A32_FLOAT, R10G10B10_XR_BIAS_A2_UNORM, AYUV, Y410, Y416, R1_UNORM, R8G8_B8G8_UNORM,
+    G8R8_G8B8_UNORM, UYVY, YUY2, Y210, Y216, NV12, P010, P016, BC1_UNORM, BC2_UNORM,
+    BC2_UNORM_PREMULTIPLIED_ALPHA, BC3_UNORM, BC3_UNORM_PREMULTIPLIED_ALPHA, BC4_UNORM, BC4_SNORM,
+    BC5_UNORM, BC5_SNORM, BC6H_UF16, BC6H_SF16, BC7_UNORM, ASTC_4X4_UNORM, ASTC_5X4_UNORM,
+    ASTC_5X5_UNORM, ASTC_6X5_UNORM, ASTC_6X6_UNORM, ASTC_8X5_UNORM, ASTC_8X6_UNORM, ASTC_8X8_UNORM,
+    ASTC_10X5_UNORM, ASTC_10X6_UNORM, ASTC_10X8_UNORM, ASTC_10X10_UNORM, ASTC_12X10_UNORM,
+    ASTC_12X12_UNORM, BC3_UNORM_RXGB, BC3_UNORM_NORMAL,
+);
+
+fn format_of(name: &str) -> Option<Format> {
+    FORMATS.iter().find(|(n, _)| *n == name).map(|(_, f)| *f)
+}
+
+const CHANNELS: [Channels; 4] = [Channels::Grayscale, Channels::Alpha, Channels::Rgb, Channels::Rgba];
+const PRECISIONS: [Precision; 3] = [Precision::U8, Precision::U16, Precision::F32];
+
+/// colour index = precision * 4 + channels (the 12 colour formats)
+fn color_of(idx: usize) -> Option<ColorFormat> {
+    if idx >= 12 {
+        return None;
+    }
+    Some(ColorFormat::new(CHANNELS[idx % 4], PRECISIONS[idx / 4]))
+}
+fn ch_idx(c: Channels) -> usize {
+    CHANNELS.iter().position(|x| *x == c).unwrap()
+}
+
+/// geometry of the encoded units, from the public `PixelInfo`
+#[derive(Clone, Copy, Debug)]
+enum Geo {
+    Pixel { bytes: usize },
+    Block { bw: usize, bh: usize, bytes: usize },
+    Planar { p1: usize, p2: usize, ssx: usize, ssy: usize },
+}
+fn geo_of(f: Format) -> Geo {
+    match PixelInfo::from(f) {
+        PixelInfo::Fixed { bytes_per_pixel } => Geo::Pixel { bytes: bytes_per_pixel as usize },
+        PixelInfo::Block(b) => Geo::Block {
+            bw: b.size().0 as usize,
+            bh: b.size().1 as usize,
+            bytes: b.bytes_per_block() as usize,
+        },
+        PixelInfo::BiPlanar(p) => Geo::Planar {
+            p1: p.plane1_bytes_per_pixel() as usize,
+            p2: p.plane2_bytes_per_sample() as usize,
+            ssx: p.plane2_sub_sampling().0 as usize,
+            ssy: p.plane2_sub_sampling().1 as usize,
+        },
+    }
+}
+fn surface_bytes(f: Format, w: usize, h: usize) -> usize {
+    PixelInfo::from(f).surface_bytes(Size::new(w as u32, h as u32)).unwrap() as usize
+}
+
+fn random_bytes(seed: u64, n: usize) -> Vec<u8> {
+    let mut r = Rng::new(seed ^ 0xC05C05);
+    let mut v = Vec::with_capacity(n + 8);
+    while v.len() < n {
+        v.extend_from_slice(&r.next().to_le_bytes());
+    }
+    v.truncate(n);
+    v
+}
+
+// ------------------------------------------------------------------------------------------
+// calling the implementation
+
+fn decode_full_tight(f: Format, data: &[u8], w: usize, h: usize, c: ColorFormat) -> Result<Vec<u8>, String> {
+    let bpp = c.bytes_per_pixel() as usize;
+    let mut out = vec![0xA5u8; w * h * bpp];
+    let view = ImageViewMut::new(&mut out, Size::new(w as u32, h as u32), c).ok_or("view")?;
+    let mut rd: &[u8] = data;
+    dds::decode(&mut rd, view, f, &DecodeOptions::default()).map_err(|e| format!("{e:?}"))?;
+    if !rd.is_empty() {
+        return Err(format!("full decode left {} bytes unread", rd.len()));
+    }
+    Ok(out)
+}
+
+/// view geometry inside a larger buffer
+#[derive(Clone, Copy)]
+struct ViewGeo {
+    w: usize,
+    h: usize,
+    pitch: usize,
+    buf_off: usize,
+    color: ColorFormat,
+}
+impl ViewGeo {
+    fn bpp(&self) -> usize {
+        self.color.bytes_per_pixel() as usize
+    }
+    fn addr_len(&self) -> usize {
+        self.pitch * (self.h - 1) + self.w * self.bpp()
+    }
+    const TAIL: usize = 9;
+    fn buf_len(&self) -> usize {
+        self.buf_off + self.addr_len() + Self::TAIL
+    }
+}
+
+/// `rect = None`: full decode (`dds::decode` / `Decoder::read_surface`), else rectangle decode
+/// (`dds::decode_rect` / `Decoder::read_surface_rect`).  Returns the whole buffer.
+fn decode_into(
+    f: Format,
+    data: &[u8],
+    sw: usize,
+    sh: usize,
+    rect: Option<(usize, usize)>,
+    v: ViewGeo,
+    prefill: u8,
+    api: u32,
+) -> Result<Vec<u8>, String> {
+    let mut buf = vec![prefill; v.buf_len()];
+    {
+        // the slice handed to the view is longer than needed (new_with truncates it)
+        let view = ImageViewMut::new_with(&mut buf[v.buf_off..], v.pitch, Size::new(v.w as u32, v.h as u32), v.color)
+            .ok_or("view")?;
+        let opts = DecodeOptions::default();
+        let size = Size::new(sw as u32, sh as u32);
+        match (rect, api) {
+            (Some((ox, oy)), 0) => {
+                let mut cur = Cursor::new(data);
+                dds::decode_rect(&mut cur, view, Offset::new(ox as u32, oy as u32), size, f, &opts)
+                    .map_err(|e| format!("{e:?}"))?;
+                if cur.position() as usize != data.len() {
+                    return Err(format!("reader at {} of {}", cur.position(), data.len()));
+                }
+            }
+            (Some((ox, oy)), _) => {
+                let header = Header::new_image(sw as u32, sh as u32, f);
+                let mut d = Decoder::from_header_with(Cursor::new(data), header, f).map_err(|e| format!("{e:?}"))?;
+                d.read_surface_rect(view, Offset::new(ox as u32, oy as u32)).map_err(|e| format!("{e:?}"))?;
+            }
+            (None, 0) => {
+                let mut rd: &[u8] = data;
+                dds::decode(&mut rd, view, f, &opts).map_err(|e| format!("{e:?}"))?;
+            }
+            (None, _) => {
+                let header = Header::new_image(sw as u32, sh as u32, f);
+                let mut d = Decoder::from_header_with(Cursor::new(data), header, f).map_err(|e| format!("{e:?}"))?;
+                d.read_surface(view).map_err(|e| format!("{e:?}"))?;
+            }
+        }
+    }
+    Ok(buf)
+}
+
+// ------------------------------------------------------------------------------------------
+// channel mapping, written from the documented rules (not from the code):
+//   grey -> rgb replicates, colour -> grey takes the first (red) channel, missing alpha is opaque,
+//   an alpha-only source has black colour, colour/grey -> alpha-only of a source without alpha is opaque.
+
+fn one_bytes(p: Precision) -> Vec<u8> {
+    match p {
+        Precision::U8 => vec![0xFF],
+        Precision::U16 => 0xFFFFu16.to_ne_bytes().to_vec(),
+        Precision::F32 => 1.0f32.to_ne_bytes().to_vec(),
+    }
+}
+fn zero_bytes(p: Precision) -> Vec<u8> {
+    vec![0u8; p.size() as usize]
+}
+
+fn map_channels(src: &[u8], from: Channels, to: Channels, p: Precision) -> Vec<u8> {
+    let s = p.size() as usize;
+    let nf = from.count() as usize;
+    let nt = to.count() as usize;
+    let n = src.len() / (s * nf);
+    let one = one_bytes(p);
+    let zero = zero_bytes(p);
+    let mut out = Vec::with_capacity(n * nt * s);
+    for i in 0..n {
+        let px = &src[i * nf * s..(i + 1) * nf * s];
+        let chan = |k: usize| &px[k * s..(k + 1) * s];
+        // source as (r, g, b, a)
+        let (r, g, b, a): (&[u8], &[u8], &[u8], &[u8]) = match from {
+            Channels::Grayscale => (chan(0), chan(0), chan(0), &one),
+            Channels::Alpha => (&zero, &zero, &zero, chan(0)),
+            Channels::Rgb => (chan(0), chan(1), chan(2), &one),
+            Channels::Rgba => (chan(0), chan(1), chan(2), chan(3)),
+        };
+        match to {
+            Channels::Grayscale => out.extend_from_slice(r),
+            Channels::Alpha => out.extend_from_slice(a),
+            Channels::Rgb => {
+                out.extend_from_slice(r);
+                out.extend_from_slice(g);
+                out.extend_from_slice(b);
+            }
+            Channels::Rgba => {
+                out.extend_from_slice(r);
+                out.extend_from_slice(g);
+                out.extend_from_slice(b);
+                out.extend_from_slice(a);
+            }
+        }
+    }
+    out
+}
+
+/// does the target layout carry any information of the native pixel?
+fn observable(native: Channels, target: Channels) -> bool {
+    !matches!(
+        (native, target),
+        (Channels::Grayscale, Channels::Alpha)
+            | (Channels::Rgb, Channels::Alpha)
+            | (Channels::Alpha, Channels::Grayscale)
+            | (Channels::Alpha, Channels::Rgb)
+    )
+}
+
+// ------------------------------------------------------------------------------------------
+// summaries (must match Drv/C05.lean)
+
+const FNV_INIT: u64 = 0xcbf29ce484222325;
+fn fnv(h: u64, v: u64) -> u64 {
+    (h ^ v).wrapping_mul(0x100000001b3)
+}
+fn pack4(a: u64, b: u64, c: u64, d: u64) -> u64 {
+    a.wrapping_add(b.wrapping_mul(16384))
+        .wrapping_add(c.wrapping_mul(268435456))
+        .wrapping_add(d.wrapping_mul(4398046511104))
+        .wrapping_add(1)
+}
+
+/// `written[i]` for the bytes of the view (relative to the view start)
+fn bytes_summary(written: &[bool]) -> String {
+    let mut total = 0usize;
+    let mut ranges = 0usize;
+    let mut h = FNV_INIT;
+    let mut i = 0;
+    while i < written.len() {
+        if written[i] {
+            let lo = i;
+            while i < written.len() && written[i] {
+                i += 1;
+            }
+            total += i - lo;
+            ranges += 1;
+            h = fnv(fnv(h, lo as u64), i as u64);
+        } else {
+            i += 1;
+        }
+    }
+    format!("wr={total} rg={ranges} bh={h}")
+}
+
+// ------------------------------------------------------------------------------------------
+// probe formats: synthetic surfaces whose pixels carry codes
+
+#[derive(Clone, Copy, PartialEq, Eq, Hash, Debug)]
+enum Plane {
+    Main,   // the only plane / luma
+    Chroma, // NV12 plane 2
+}
+
+#[derive(Clone, Copy, PartialEq, Eq, Hash, Debug)]
+enum ProbeKind {
+    Rgba8,
+    Bc4,
+    R1,
+    Yuy2,
+    Nv12,
+}
+fn probe_of(name: &str) -> Option<ProbeKind> {
+    match name {
+        "R8G8B8A8_UNORM" => Some(ProbeKind::Rgba8),
+        "BC4_UNORM" => Some(ProbeKind::Bc4),
+        "R1_UNORM" => Some(ProbeKind::R1),
+        "YUY2" => Some(ProbeKind::Yuy2),
+        "NV12" => Some(ProbeKind::Nv12),
+        _ => None,
+    }
+}
+impl ProbeKind {
+    fn format(self) -> Format {
+        match self {
+            ProbeKind::Rgba8 => Format::R8G8B8A8_UNORM,
+            ProbeKind::Bc4 => Format::BC4_UNORM,
+            ProbeKind::R1 => Format::R1_UNORM,
+            ProbeKind::Yuy2 => Format::YUY2,
+            ProbeKind::Nv12 => Format::NV12,
+        }
+    }
+    /// code bits a pixel can carry in one pass
+    fn bits(self) -> u32 {
+        match self {
+            ProbeKind::Rgba8 => 8,
+            ProbeKind::Bc4 => 3,
+            ProbeKind::R1 => 1,
+            ProbeKind::Yuy2 => 7,
+            ProbeKind::Nv12 => 7,
+        }
+    }
+    /// encoded surface in which main-plane pixel (x, y) carries `code(x, y)`; for NV12 with
+    /// `plane = Chroma` the chroma sample (cx, cy) carries `code(cx, cy)` and the luma is constant
+    fn encode(self, w: usize, h: usize, plane: Plane, code: &dyn Fn(usize, usize) -> u32) -> Vec<u8> {
+        match self {
+            ProbeKind::Rgba8 => {
+                let mut v = Vec::with_capacity(w * h * 4);
+                for y in 0..h {
+                    for x in 0..w {
+                        let c = code(x, y) as u8;
+                        v.extend_from_slice(&[c, c, c, c]);
+                    }
+                }
+                v
+            }
+            ProbeKind::R1 => {
+                let wb = w.div_ceil(8);
+                let mut v = vec![0u8; wb * h];
+                for y in 0..h {
+                    for x in 0..w {
+                        if code(x, y) & 1 == 1 {
+                            v[y * wb + x / 8] |= 0x80 >> (x % 8);
+                        }
+                    }
+                }
+                v
+            }
+            ProbeKind::Yuy2 => {
+                let wb = w.div_ceil(2);
+                let mut v = vec![128u8; wb * h * 4];
+                for y in 0..h {
+                    for bx in 0..wb {
+                        let o = (y * wb + bx) * 4;
+                        v[o] = 16 + code(bx * 2, y) as u8;
+                        v[o + 2] = 16 + if bx * 2 + 1 < w { code(bx * 2 + 1, y) as u8 } else { 0 };
+                    }
+                }
+                v
+            }
+            ProbeKind::Bc4 => {
+                let wb = w.div_ceil(4);
+                let hb = h.div_ceil(4);
+                let mut v = Vec::with_capacity(wb * hb * 8);
+                for by in 0..hb {
+                    for bx in 0..wb {
+                        let mut idx: u64 = 0;
+                        for py in 0..4 {
+                            for px in 0..4 {
+                                let (x, y) = (bx * 4 + px, by * 4 + py);
+                                let c = if x < w && y < h { code(x, y) as u64 & 7 } else { 0 };
+                                idx |= c << (3 * (py * 4 + px));
+                            }
+                        }
+                        v.push(255);
+                        v.push(0);
+                        v.extend_from_slice(&idx.to_le_bytes()[..6]);
+                    }
+                }
+                v
+            }
+            ProbeKind::Nv12 => {
+                let cw = w.div_ceil(2);
+                let chh = h.div_ceil(2);
+                let mut v = Vec::with_capacity(w * h + cw * chh * 2);
+                for y in 0..h {
+                    for x in 0..w {
+                        v.push(match plane {
+                            Plane::Main => 16 + code(x, y) as u8,
+                            Plane::Chroma => 126,
+                        });
+                    }
+                }
+                for cy in 0..chh {
+                    for cx in 0..cw {
+                        v.push(128);
+                        v.push(match plane {
+                            Plane::Main => 128,
+                            Plane::Chroma => 64 + code(cx, cy) as u8,
+                        });
+                    }
+                }
+                v
+            }
+        }
+    }
+}
+
+thread_local! {
+    static TABLES: RefCell<HashMap<(ProbeKind, Plane, usize), HashMap<Vec<u8>, u32>>> = RefCell::new(HashMap::new());
+}
+
+/// decoded pixel bytes -> code, learnt from flat surfaces (every pixel carries the same code, so
+/// no addressing is trusted)
+fn table(kind: ProbeKind, plane: Plane, color_idx: usize) -> Result<HashMap<Vec<u8>, u32>, String> {
+    if let Some(t) = TABLES.with(|t| t.borrow().get(&(kind, plane, color_idx)).cloned()) {
+        return Ok(t);
+    }
+    let c = color_of(color_idx).unwrap();
+    let bpp = c.bytes_per_pixel() as usize;
+    let mut t = HashMap::new();
+    for code in 0..(1u32 << kind.bits()) {
+        let (w, h) = (8usize, 4usize);
+        let data = kind.encode(w, h, plane, &|_, _| code);
+        let out = decode_full_tight(kind.format(), &data, w, h, c)?;
+        let first = out[..bpp].to_vec();
+        if out.chunks(bpp).any(|p| p != &first[..]) {
+            return Err(format!("calibration: flat surface of code {code} does not decode flat"));
+        }
+        if t.insert(first, code).is_some() {
+            return Err(format!("calibration: code {code} is not distinguishable in colour {color_idx}"));
+        }
+    }
+    TABLES.with(|tt| tt.borrow_mut().insert((kind, plane, color_idx), t.clone()));
+    Ok(t)
+}
+
+fn bitlen(x: usize) -> u32 {
+    usize::BITS - x.leading_zeros()
+}
+
+const GARBAGE: u64 = u64::MAX;
+
+/// Reads back, for every pixel of the view, the coordinate field `field(x, y)` of the source
+/// pixel (or chroma sample) it was decoded from.  `maxv` = largest field value in the surface.
+#[allow(clippy::too_many_arguments)]
+fn read_back(
+    kind: ProbeKind,
+    plane: Plane,
+    sw: usize,
+    sh: usize,
+    rect: Option<(usize, usize)>,
+    v: ViewGeo,
+    color_idx: usize,
+    api: u32,
+    maxv: usize,
+    field: &dyn Fn(usize, usize) -> usize,
+) -> Result<Vec<u64>, String> {
+    let bits = kind.bits();
+    let passes = (bitlen(maxv).div_ceil(bits)).max(1);
+    let t = table(kind, plane, color_idx)?;
+    let bpp = v.bpp();
+    let mut acc = vec![0u64; v.w * v.h];
+    for p in 0..passes {
+        let data = kind.encode(sw, sh, plane, &|x, y| ((field(x, y) >> (p * bits)) as u32) & ((1 << bits) - 1));
+        let buf = decode_into(kind.format(), &data, sw, sh, rect, v, 0x5A, api)?;
+        for j in 0..v.h {
+            for i in 0..v.w {
+                let o = v.buf_off + j * v.pitch + i * bpp;
+                let a = &mut acc[j * v.w + i];
+                match t.get(&buf[o..o + bpp]) {
+                    Some(code) if *a != GARBAGE => *a |= (*code as u64) << (p * bits),
+                    _ => *a = GARBAGE,
+                }
+            }
+        }
+    }
+    Ok(acc)
+}
+
+/// source map of the implementation: per view pixel the packed source coordinates
+fn source_map(
+    kind: ProbeKind,
+    sw: usize,
+    sh: usize,
+    rect: Option<(usize, usize)>,
+    v: ViewGeo,
+    color_idx: usize,
+    api: u32,
+) -> Result<Vec<u64>, String> {
+    let xs = read_back(kind, Plane::Main, sw, sh, rect, v, color_idx, api, sw - 1, &|x, _| x)?;
+    let ys = read_back(kind, Plane::Main, sw, sh, rect, v, color_idx, api, sh - 1, &|_, y| y)?;
+    let (cxs, cys) = if kind == ProbeKind::Nv12 {
+        let cw = sw.div_ceil(2);
+        let chh = sh.div_ceil(2);
+        (
+            read_back(kind, Plane::Chroma, sw, sh, rect, v, color_idx, api, cw - 1, &|x, _| x)?,
+            read_back(kind, Plane::Chroma, sw, sh, rect, v, color_idx, api, chh - 1, &|_, y| y)?,
+        )
+    } else {
+        (vec![0; xs.len()], vec![0; xs.len()])
+    };
+    Ok((0..xs.len())
+        .map(|k| {
+            if xs[k] == GARBAGE || ys[k] == GARBAGE || cxs[k] == GARBAGE || cys[k] == GARBAGE {
+                GARBAGE
+            } else {
+                pack4(xs[k], ys[k], cxs[k], cys[k])
+            }
+        })
+        .collect())
+}
+
+// ------------------------------------------------------------------------------------------
+// one decode, observed
+
+thread_local! {
+    static FULL_CACHE: RefCell<Option<((usize, usize, usize, u64, usize), Vec<u8>)>> = RefCell::new(None);
+}
+fn cached_full(fi: usize, f: Format, data: &[u8], w: usize, h: usize, seed: u64, ci: usize) -> Result<Vec<u8>, String> {
+    let key = (fi, w, h, seed, ci);
+    if let Some(v) = FULL_CACHE.with(|c| c.borrow().as_ref().filter(|(k, _)| *k == key).map(|(_, v)| v.clone())) {
+        return Ok(v);
+    }
+    let v = decode_full_tight(f, data, w, h, color_of(ci).unwrap())?;
+    FULL_CACHE.with(|c| *c.borrow_mut() = Some((key, v.clone())));
+    Ok(v)
+}
+
+#[allow(clippy::too_many_arguments)]
+fn observe(
+    name: &str,
+    f: Format,
+    sw: usize,
+    sh: usize,
+    rect: Option<(usize, usize)>,
+    v: ViewGeo,
+    ci: usize,
+    api: u32,
+    seed: u64,
+) -> (String, Vec<String>) {
+    let mut orc: Vec<String> = vec![];
+    let fi = FORMATS.iter().position(|(n, _)| *n == name).unwrap();
+    let data = random_bytes(seed, surface_bytes(f, sw, sh));
+    let bpp = v.bpp();
+    let (ox, oy) = rect.unwrap_or((0, 0));
+
+    let full = match cached_full(fi, f, &data, sw, sh, seed, ci) {
+        Ok(x) => x,
+        Err(e) => return (format!("err full {e}"), vec![format!("full decode failed: {e}")]),
+    };
+    let mut bufs = vec![];
+    for prefill in [0x00u8, 0xFF] {
+        match decode_into(f, &data, sw, sh, rect, v, prefill, api) {
+            Ok(b) => bufs.push(b),
+            Err(e) => return (format!("err decode {e}"), vec![format!("decode failed: {e}")]),
+        }
+    }
+    // (1) the addressed bytes equal the crop of the tight full decode, whatever pitch / alignment /
+    //     previous contents; (2) everything else keeps its previous contents
+    for (k, prefill) in [0x00u8, 0xFF].iter().enumerate() {
+        let b = &bufs[k];
+        'rows: for j in 0..v.h {
+            let o = v.buf_off + j * v.pitch;
+            let e = ((oy + j) * sw + ox) * bpp;
+            if b[o..o + v.w * bpp] != full[e..e + v.w * bpp] {
+                let i = (0..v.w * bpp).find(|i| b[o + i] != full[e + i]).unwrap() / bpp;
+                orc.push(format!(
+                    "pixel ({i},{j}) of the view differs from pixel ({},{}) of the full decode (prefill {prefill:#x}): {:?} vs {:?}",
+                    ox + i, oy + j, &b[o + i * bpp..o + (i + 1) * bpp], &full[e + i * bpp..e + (i + 1) * bpp]
+                ));
+                break 'rows;
+            }
+        }
+        let mut touched = None;
+        for (i, x) in b.iter().enumerate() {
+            if x == prefill {
+                continue;
+            }
+            let inside = i >= v.buf_off && {
+                let r = i - v.buf_off;
+                r < v.addr_len() && r % v.pitch < v.w * bpp && r / v.pitch < v.h
+            };
+            if !inside {
+                touched = Some(i);
+                break;
+            }
+        }
+        if let Some(i) = touched {
+            orc.push(format!(
+                "byte {i} of the buffer (view starts at {}, pitch {}, row bytes {}) is outside the addressed rows but was changed (prefill {prefill:#x})",
+                v.buf_off, v.pitch, v.w * bpp
+            ));
+        }
+    }
+    // written set: bytes of the view that do not depend on the prefill
+    let n = v.addr_len();
+    let written: Vec<bool> = (0..n).map(|i| bufs[0][v.buf_off + i] == bufs[1][v.buf_off + i]).collect();
+    let bsum = bytes_summary(&written);
+
+    // (3) non-native channel layout == native layout of the same precision + documented mapping
+    let color = v.color;
+    let native_ch = f.channels();
+    if color.channels != native_ch {
+        let nc = ColorFormat::new(native_ch, color.precision);
+        let nv = ViewGeo { w: v.w, h: v.h, pitch: v.w * nc.bytes_per_pixel() as usize, buf_off: 0, color: nc };
+        match decode_into(f, &data, sw, sh, rect, nv, 0, 0) {
+            Ok(nb) => {
+                let mapped = map_channels(&nb[..nv.addr_len()], native_ch, color.channels, color.precision);
+                for j in 0..v.h {
+                    let o = v.buf_off + j * v.pitch;
+                    let e = j * v.w * bpp;
+                    if bufs[0][o..o + v.w * bpp] != mapped[e..e + v.w * bpp] {
+                        orc.push(format!(
+                            "row {j}: decode into {:?} differs from native {:?} decode + channel mapping",
+                            color, nc
+                        ));
+                        break;
+                    }
+                }
+            }
+            Err(e) => orc.push(format!("native decode failed: {e}")),
+        }
+    }
+
+    // (3b) ASTC (no probe possible through flat blocks): the U8 RGBA full decode must put pixel (px, py) of
+    //      block (bx, by), decoded independently block by block with the astc-decode crate, at
+    //      (bx*bw + px, by*bh + py).  This observes the position inside non-square blocks.
+    if name.starts_with("ASTC") && rect.is_none() {
+        if let Geo::Block { bw, bh, bytes } = geo_of(f) {
+            match cached_full(fi, f, &data, sw, sh, seed, 3) {
+                Ok(rgba) => {
+                    let wb = sw.div_ceil(bw);
+                    let fp = astc_decode::Footprint::new(bw as u32, bh as u32);
+                    let mut bad: Option<(usize, usize)> = None;
+                    for by in 0..sh.div_ceil(bh) {
+                        for bx in 0..wb {
+                            let o = (by * wb + bx) * bytes;
+                            let blk: [u8; 16] = data[o..o + 16].try_into().unwrap();
+                            astc_decode::astc_decode_block(&blk, fp, |x, y, c| {
+                                let (gx, gy) = (bx * bw + x as usize, by * bh + y as usize);
+                                if gx < sw && gy < sh && bad.is_none() && rgba[(gy * sw + gx) * 4..][..4] != c {
+                                    bad = Some((gx, gy));
+                                }
+                            });
+                        }
+                    }
+                    if let Some((x, y)) = bad {
+                        orc.push(format!(
+                            "ASTC: pixel ({x},{y}) of the full decode is not pixel ({},{}) of block ({},{}) decoded on its own",
+                            x % bw, y % bh, x / bw, y / bh
+                        ));
+                    }
+                }
+                Err(e) => orc.push(format!("ASTC reference decode failed: {e}")),
+            }
+        }
+    }
+
+    // (4) probe formats: where did every pixel come from?
+    let mut ssum = "sm=-".to_string();
+    if let Some(kind) = probe_of(name) {
+        if observable(native_ch, color.channels) {
+            match source_map(kind, sw, sh, rect, v, ci, api) {
+                Ok(map) => {
+                    let mut h = FNV_INIT;
+                    let mut un = 0;
+                    let mut bad = None;
+                    for j in 0..v.h {
+                        for i in 0..v.w {
+                            let wr = (0..bpp).all(|b| written[j * v.pitch + i * bpp + b]);
+                            let m = if wr { map[j * v.w + i] } else { 0 };
+                            if !wr {
+                                un += 1;
+                            }
+                            h = fnv(h, m);
+                            let (x, y) = ((ox + i) as u64, (oy + j) as u64);
+                            let want = if kind == ProbeKind::Nv12 { pack4(x, y, x / 2, y / 2) } else { pack4(x, y, 0, 0) };
+                            if m != want && bad.is_none() {
+                                bad = Some((i, j, m));
+                            }
+                        }
+                    }
+                    if let Some((i, j, m)) = bad {
+                        let d = m.wrapping_sub(1);
+                        orc.push(format!(
+                            "probe: view pixel ({i},{j}) should come from source pixel ({},{}) but came from {}",
+                            ox + i,
+                            oy + j,
+                            if m == 0 { "nowhere (not written)".to_string() }
+                            else if m == GARBAGE { "an unidentifiable source".to_string() }
+                            else { format!("x={} y={} cx={} cy={}", d % 16384, (d >> 14) % 16384, (d >> 28) % 16384, d >> 42) }
+                        ));
+                    }
+                    ssum = format!("sm={h} un={un} oob=0");
+                }
+                Err(e) => {
+                    orc.push(format!("probe failed: {e}"));
+                    ssum = format!("sm=err");
+                }
+            }
+        }
+    }
+    (format!("ok {bsum} {ssum}"), orc)
+}
+
+fn locality(f: Format, w: usize, h: usize, ci: usize, seed: u64) -> (String, Vec<String>) {
+    let c = color_of(ci).unwrap();
+    let bpp = c.bytes_per_pixel() as usize;
+    let data = random_bytes(seed, surface_bytes(f, w, h));
+    let a = match decode_full_tight(f, &data, w, h, c) {
+        Ok(x) => x,
+        Err(e) => return (format!("err {e}"), vec![e]),
+    };
+    let mut r = Rng::new(seed ^ 0x10CA1);
+    // (byte offset, byte len, footprint x0, y0, x1, y1)
+    let (off, len, x0, y0, x1, y1) = match geo_of(f) {
+        Geo::Pixel { bytes } => {
+            let (x, y) = (r.below(w as u64) as usize, r.below(h as u64) as usize);
+            ((y * w + x) * bytes, bytes, x, y, x + 1, y + 1)
+        }
+        Geo::Block { bw, bh, bytes } => {
+            let (wb, hb) = (w.div_ceil(bw), h.div_ceil(bh));
+            let (bx, by) = (r.below(wb as u64) as usize, r.below(hb as u64) as usize);
+            ((by * wb + bx) * bytes, bytes, bx * bw, by * bh, (bx + 1) * bw, (by + 1) * bh)
+        }
+        Geo::Planar { p1, p2, ssx, ssy } => {
+            if r.chance(1, 2) {
+                let (x, y) = (r.below(w as u64) as usize, r.below(h as u64) as usize);
+                ((y * w + x) * p1, p1, x, y, x + 1, y + 1)
+            } else {
+                let (cw, chh) = (w.div_ceil(ssx), h.div_ceil(ssy));
+                let (cx, cy) = (r.below(cw as u64) as usize, r.below(chh as u64) as usize);
+                (w * h * p1 + (cy * cw + cx) * p2, p2, cx * ssx, cy * ssy, (cx + 1) * ssx, (cy + 1) * ssy)
+            }
+        }
+    };
+    let mut data2 = data.clone();
+    for b in &mut data2[off..off + len] {
+        *b ^= (r.below(255) + 1) as u8;
+    }
+    let b = match decode_full_tight(f, &data2, w, h, c) {
+        Ok(x) => x,
+        Err(e) => return (format!("err {e}"), vec![e]),
+    };
+    let mut orc = vec![];
+    'o: for y in 0..h {
+        for x in 0..w {
+            let inside = x >= x0 && x < x1 && y >= y0 && y < y1;
+            let o = (y * w + x) * bpp;
+            if !inside && a[o..o + bpp] != b[o..o + bpp] {
+                orc.push(format!(
+                    "pixel ({x},{y}) changed although only the encoded unit covering [{x0},{x1})x[{y0},{y1}) was modified"
+                ));
+                break 'o;
+            }
+        }
+    }
+    ("ok".to_string(), orc)
+}
+
+pub fn run(line: &str) -> Option<(String, Vec<String>)> {
+    let t = toks(line);
+    match t.as_slice() {
+        ["R", name, rest @ ..] if rest.len() == 11 => {
+            let f = format_of(name)?;
+            let n: Vec<usize> = rest[..10].iter().map(|s| p_usize(s)).collect::<Option<_>>()?;
+            let seed = p_u64(rest[10])?;
+            let (sw, sh, ox, oy, w, h, ci, pitch, buf_off, api) = (n[0], n[1], n[2], n[3], n[4], n[5], n[6], n[7], n[8], n[9]);
+            let color = color_of(ci)?;
+            if w == 0 || h == 0 || ox + w > sw || oy + h > sh || pitch < w * color.bytes_per_pixel() as usize {
+                return None;
+            }
+            let v = ViewGeo { w, h, pitch, buf_off, color };
+            Some(observe(name, f, sw, sh, Some((ox, oy)), v, ci, api as u32, seed))
+        }
+        ["F", name, rest @ ..] if rest.len() == 6 => {
+            let f = format_of(name)?;
+            let n: Vec<usize> = rest[..5].iter().map(|s| p_usize(s)).collect::<Option<_>>()?;
+            let seed = p_u64(rest[5])?;
+            let (sw, sh, ci, pitch, buf_off) = (n[0], n[1], n[2], n[3], n[4]);
+            let color = color_of(ci)?;
+            if sw == 0 || sh == 0 || pitch < sw * color.bytes_per_pixel() as usize {
+                return None;
+            }
+            let v = ViewGeo { w: sw, h: sh, pitch, buf_off, color };
+            Some(observe(name, f, sw, sh, None, v, ci, (seed % 2) as u32, seed))
+        }
+        ["L", name, rest @ ..] if rest.len() == 4 => {
+            let f = format_of(name)?;
+            let (w, h, ci) = (p_usize(rest[0])?, p_usize(rest[1])?, p_usize(rest[2])?);
+            let seed = p_u64(rest[3])?;
+            if w == 0 || h == 0 || ci >= 12 {
+                return None;
+            }
+            Some(locality(f, w, h, ci, seed))
+        }
+        _ => None,
+    }
+}
+
+// ------------------------------------------------------------------------------------------
+// generator
+
+const PROBES: [&str; 5] = ["R8G8B8A8_UNORM", "BC4_UNORM", "R1_UNORM", "YUY2", "NV12"];
+
+fn pitch_for(mode: u64, min: usize) -> usize {
+    match mode % 4 {
+        0 => min,
+        1 => min + 1,
+        2 => min + 7,
+        _ => 2 * min,
+    }
+}
+
+struct Gen {
+    rng: Rng,
+    out: Vec<String>,
+}
+impl Gen {
+    fn bpp(ci: usize) -> usize {
+        color_of(ci).unwrap().bytes_per_pixel() as usize
+    }
+    #[allow(clippy::too_many_arguments)]
+    fn rect(&mut self, name: &str, sw: usize, sh: usize, ox: usize, oy: usize, w: usize, h: usize, ci: usize, seed: u64) {
+        let pitch = pitch_for(self.rng.next(), w * Self::bpp(ci));
+        let buf_off = self.rng.below(4);
+        let api = if self.rng.chance(1, 8) { 1 } else { 0 };
+        self.out.push(format!("R {name} {sw} {sh} {ox} {oy} {w} {h} {ci} {pitch} {buf_off} {api} {seed}"));
+    }
+    fn full(&mut self, name: &str, sw: usize, sh: usize, ci: usize, seed: u64) {
+        let pitch = pitch_for(self.rng.next(), sw * Self::bpp(ci));
+        let buf_off = self.rng.below(4);
+        self.out.push(format!("F {name} {sw} {sh} {ci} {pitch} {buf_off} {seed}"));
+    }
+    /// a random rectangle of one of the classes of the property's quantifier
+    fn random_rect(&mut self, sw: usize, sh: usize, bw: usize, bh: usize) -> (usize, usize, usize, usize) {
+        let r = &mut self.rng;
+        let span = |r: &mut Rng, n: usize| -> (usize, usize) {
+            let o = r.below(n as u64) as usize;
+            let l = 1 + r.below((n - o) as u64) as usize;
+            (o, l)
+        };
+        match r.below(9) {
+            0 => {
+                // 1x1
+                (r.below(sw as u64) as usize, r.below(sh as u64) as usize, 1, 1)
+            }
+            1 => {
+                let (ox, w) = span(r, sw);
+                (ox, r.below(sh as u64) as usize, w, 1)
+            }
+            2 => {
+                let (oy, h) = span(r, sh);
+                (r.below(sw as u64) as usize, oy, 1, h)
+            }
+            3 => (0, 0, sw, sh),
+            4 => {
+                // touches the right / bottom edge
+                let ox = r.below(sw as u64) as usize;
+                let oy = r.below(sh as u64) as usize;
+                (ox, oy, sw - ox, sh - oy)
+            }
+            5 => {
+                // block aligned offset
+                let ox = (r.below(sw as u64) as usize) / bw * bw;
+                let oy = (r.below(sh as u64) as usize) / bh * bh;
+                let w = 1 + r.below((sw - ox) as u64) as usize;
+                let h = 1 + r.below((sh - oy) as u64) as usize;
+                (ox, oy, w, h)
+            }
+            6 => {
+                // inside one unit / one line of units
+                let ox = r.below(sw as u64) as usize;
+                let oy = r.below(sh as u64) as usize;
+                let w = 1 + r.below(bw.min(sw - ox) as u64) as usize;
+                let h = 1 + r.below(bh.min(sh - oy) as u64) as usize;
+                (ox, oy, w, h)
+            }
+            _ => {
+                let (ox, w) = span(r, sw);
+                let (oy, h) = span(r, sh);
+                (ox, oy, w, h)
+            }
+        }
+    }
+}
+
+fn unit_size(f: Format) -> (usize, usize) {
+    match geo_of(f) {
+        Geo::Pixel { .. } => (1, 1),
+        Geo::Block { bw, bh, .. } => (bw, bh),
+        Geo::Planar { ssx, ssy, .. } => (ssx, ssy),
+    }
+}
+
+pub fn gen(seed: u64, thorough: bool) -> Vec<String> {
+    let mut g = Gen { rng: Rng::new(seed), out: vec![] };
+
+    // (a) all rectangles of tiny surfaces, probe formats (one colour per surface, cycling)
+    let tiny: &[(&str, &[(usize, usize)])] = &[
+        ("R8G8B8A8_UNORM", &[(1, 1), (2, 3), (4, 3), (5, 5)]),
+        ("YUY2", &[(1, 1), (2, 2), (3, 2), (5, 3), (6, 2)]),
+        ("NV12", &[(1, 1), (2, 2), (3, 3), (5, 4), (4, 5)]),
+        ("R1_UNORM", &[(1, 1), (7, 2), (8, 1), (9, 2), (17, 1)]),
+        ("BC4_UNORM", &[(1, 1), (3, 5), (4, 4), (5, 5), (9, 6), (8, 8)]),
+        ("ASTC_5X4_UNORM", &[(6, 5), (11, 4)]),
+        ("BC1_UNORM", &[(5, 9)]),
+    ];
+    let mut cyc = 0usize;
+    for (name, sizes) in tiny {
+        for &(sw, sh) in sizes.iter() {
+            let reps = if thorough { 24 } else { 2 };
+            for _ in 0..reps {
+                let ci = cyc % 12;
+                cyc += 5;
+                let s = g.rng.below(1 << 20);
+                for oy in 0..sh {
+                    for h in 1..=sh - oy {
+                        for ox in 0..sw {
+                            for w in 1..=sw - ox {
+                                g.rect(name, sw, sh, ox, oy, w, h, ci, s);
+                            }
+                        }
+                    }
+                }
+            }
+        }
+    }
+
+    // (b) every format: widths and heights 1..=70 (all residues of every block size), all rect
+    //     classes, all 12 colours, pitches, offsets
+    let per_dim = if thorough { 120 } else { 8 };
+    for round in 0..per_dim {
+        for (fi, (name, f)) in FORMATS.iter().enumerate() {
+            let (bw, bh) = unit_size(*f);
+            let weight = if PROBES.contains(name) { 2 } else { 1 };
+            for k in 1..=70usize {
+                for _ in 0..weight {
+                    // width k with a random height, height k with a random width
+                    for flip in 0..2 {
+                        if !thorough && (k + fi + flip) % 2 == 1 && !PROBES.contains(name) && k > 26 {
+                            // quick tier: half of the large sizes per non-probe format
+                            continue;
+                        }
+                        let bound = if g.rng.chance(1, 3) { 70 } else { 24 };
+                        let other = 1 + g.rng.below(bound) as usize;
+                        let (sw, sh) = if flip == 0 { (k, other) } else { (other, k) };
+                        let ci = g.rng.below(12) as usize;
+                        let s = g.rng.below(1 << 20) + round as u64;
+                        let (ox, oy, w, h) = g.random_rect(sw, sh, bw, bh);
+                        g.rect(name, sw, sh, ox, oy, w, h, ci, s);
+                    }
+                }
+            }
+        }
+    }
+
+    // (c) wide surfaces: crossing the 3072-byte conversion buffer and the 64 KiB line buffer
+    let wide: &[(&str, &[usize])] = &[
+        ("R8G8B8A8_UNORM", &[191, 192, 193, 385, 767, 768, 769, 1537, 2047, 2048, 2049, 4097, 8193, 16385]),
+        ("R32G32B32A32_FLOAT", &[191, 193, 2047, 2048, 2049, 4095, 4096, 4097]),
+        ("R8_UNORM", &[3071, 3072, 3073, 6145]),
+        ("A8_UNORM", &[3073]),
+        ("R16G16_FLOAT", &[255, 256, 257, 513]),
+        ("R32G32B32_FLOAT", &[255, 256, 257]),
+        ("BC4_UNORM", &[189, 191, 192, 193, 197, 383, 385, 765, 768, 771, 1539]),
+        ("BC1_UNORM", &[47, 48, 49, 95, 97, 191, 193, 32772]),
+        ("BC3_UNORM", &[193, 255, 257]),
+        ("BC6H_UF16", &[65, 129, 255, 257]),
+        ("R1_UNORM", &[767, 768, 769, 1537, 3071, 3073, 3080]),
+        ("YUY2", &[255, 256, 257, 341, 1023, 1025, 2049]),
+        ("Y216", &[257, 1025]),
+        ("NV12", &[255, 256, 257, 341, 513, 1023, 1024, 1025, 2049]),
+        ("P016", &[257, 1025]),
+        ("ASTC_12X12_UNORM", &[13, 25, 61, 193]),
+        ("ASTC_10X5_UNORM", &[31, 61, 101, 1021]),
+        ("ASTC_5X5_UNORM", &[151, 153, 611]),
+    ];
+    for (name, widths) in wide {
+        let f = format_of(name).unwrap();
+        let (bw, bh) = unit_size(f);
+        for &sw in widths.iter() {
+            if sw > 9000 && !thorough && *name != "BC1_UNORM" && sw != 16385 {
+                continue;
+            }
+            let reps = if thorough { 12 } else if sw > 3000 { 2 } else { 6 };
+            for rep in 0..reps {
+                let sh = 1 + g.rng.below(if sw > 3000 { 5 } else { 11 }) as usize;
+                let ci = if rep < 3 { [3usize, 8, 10][rep] } else { g.rng.below(12) as usize };
+                let s = g.rng.below(1 << 20);
+                let (ox, oy, w, h) = if rep % 3 == 0 {
+                    // wide rect starting unaligned
+                    let ox = 1 + g.rng.below(bw.max(2) as u64) as usize;
+                    (ox.min(sw - 1), 0, sw - ox.min(sw - 1), sh)
+                } else {
+                    g.random_rect(sw, sh, bw, bh)
+                };
+                g.rect(name, sw, sh, ox, oy, w, h, ci, s);
+                if rep % 4 == 1 {
+                    g.full(name, sw, sh, ci, s);
+                }
+            }
+        }
+    }
+
+    // (d) full decodes into pitched views: every format x 12 colours (COPY fast paths included)
+    for (name, _) in FORMATS.iter() {
+        for ci in 0..12usize {
+            let reps = if thorough { 30 } else if PROBES.contains(name) { 6 } else { 3 };
+            for _ in 0..reps {
+                let b1 = if g.rng.chance(1, 4) { 70 } else { 20 };
+                let sw = 1 + g.rng.below(b1) as usize;
+                let b2 = if g.rng.chance(1, 4) { 70 } else { 14 };
+                let sh = 1 + g.rng.below(b2) as usize;
+                let s = g.rng.below(1 << 20);
+                g.full(name, sw, sh, ci, s);
+            }
+        }
+    }
+
+    // (d2) native colour (whole-image COPY fast paths where they exist) x every pitch mode x offsets
+    for (name, f) in FORMATS.iter() {
+        let nc = f.color();
+        let ci = PRECISIONS.iter().position(|p| *p == nc.precision).unwrap() * 4 + ch_idx(nc.channels);
+        for mode in 0..4u64 {
+            for rep in 0..(if thorough { 6 } else { 2 }) {
+                let sw = 1 + g.rng.below(if rep == 0 { 9 } else { 40 }) as usize;
+                let sh = 2 + g.rng.below(12) as usize;
+                let pitch = pitch_for(mode, sw * Gen::bpp(ci));
+                let buf_off = g.rng.below(4);
+                let s = g.rng.below(1 << 20);
+                g.out.push(format!("F {name} {sw} {sh} {ci} {pitch} {buf_off} {s}"));
+            }
+        }
+    }
+
+    // (e) locality
+    for (name, _) in FORMATS.iter() {
+        let reps = if thorough { 200 } else { 12 };
+        for _ in 0..reps {
+            let sw = 1 + g.rng.below(40) as usize;
+            let sh = 1 + g.rng.below(30) as usize;
+            let ci = g.rng.below(12);
+            let s = g.rng.below(1 << 20);
+            g.out.push(format!("L {name} {sw} {sh} {ci} {s}"));
+        }
+    }
+    let _ = p_u32;
+    g.out
 }
